@@ -154,6 +154,13 @@ func init() {
 			fr.i.sched.preemptBud = a[0].(int)
 			return nil
 		},
+		"RaceMonitor": func(fr *frame, a []value) value {
+			if fr.i.sched.race == nil {
+				fr.i.sched.race = newRaceMon()
+			}
+			fr.i.sched.race.on = a[0].(bool)
+			return nil
+		},
 		"SelectChoice": func(fr *frame, a []value) value { fr.i.px.selectChoice = a[0].(bool); return nil },
 		"PanicNil":     func(fr *frame, a []value) value { return fr.i.px.panicNil },
 		"Symbolic":     func(fr *frame, a []value) value { return true },
